@@ -171,6 +171,12 @@ func runERC20Reddem(ctx *action.Context, tx action.RawTx) (bool, action.Response
 			Log: "Tracker already exists",
 		}
 	}
+	// a failed (refunded) redeem keeps its record: the same external transaction backs no second tracker
+	if ctx.ETHTrackers.WithPrefixType(trackerlib.PrefixFailed).Exists(name) {
+		return false, action.Response{
+			Log: "Tracker already exists",
+		}
+	}
 
 	tracker := trackerlib.NewTracker(
 		trackerlib.ProcessTypeRedeemERC,
